@@ -15,7 +15,9 @@ Serialiser side (`HashMap.set*`, `build_tree` … `serialize_dict`):
 
 Parser side (`deserialize_unary/hml`, `parse`, `parse_aug`, `parse_hashmap*`, `HashMap.parse/from_cell`,
 `Slice.load_dict/preload_dict/load_hashmap_aug_e`): slices are (bits, refs) of the tree `Cell`; `m` is a Python int
-(it can go negative on malformed input, `int.bit_length` is taken of |m|).
+(`int.bit_length` is taken of |m|).  Since the `{n <= m}` repair `deserialize_hml` raises when the label it read is longer than
+the remaining key (`{n <= m}` of hashmap.tlb), so `m` never goes negative inside a parse that started with `key_len ≥ 0`
+(`Proofs/Hashmap.lean: parseEdge_some_nonneg`, `deserializeHml_le`).
 -/
 import TonVerif.Model.Cell
 import TonVerif.Model.Builder
@@ -209,8 +211,9 @@ def loadLen (m : Int) (bits : Bits) : Option (Nat × Bits) :=
   let l := bitLength m.natAbs
   if l = 0 then some (0, bits) else loadUint l bits
 
-/-- `deserialize_hml(ser, m)` : (n, s, rest) -/
-def deserializeHml (bits : Bits) (m : Int) : Option (Nat × Bits × Bits) :=
+/-- the three constructor branches of `deserialize_hml(ser, m)` up to (not including) its final `if n > m: raise`:
+(n, s, rest) -/
+def readHml (bits : Bits) (m : Int) : Option (Nat × Bits × Bits) :=
   match bits with
   | [] => none
   | false :: r => do
@@ -226,6 +229,13 @@ def deserializeHml (bits : Bits) (m : Int) : Option (Nat × Bits × Bits) :=
   | true :: true :: v :: r => do
     let (n, r1) ← loadLen m r
     some (n, List.replicate n v, r1)
+
+/-- `deserialize_hml(ser, m)` : (n, s, rest).  After the `{n <= m}` repair the function ends with `if n > m: raise ValueError`
+(`{n <= m}` in all three `HmLabel` constructors): a label longer than the remaining key is refused. -/
+def deserializeHml (bits : Bits) (m : Int) : Option (Nat × Bits × Bits) :=
+  match readHml bits m with
+  | none => none
+  | some (n, s, rest) => if (n : Int) > m then none else some (n, s, rest)
 
 mutual
   /-- `parse(slice, key_length, ret_dict, prefix)` + `deserialize_hashmap_node`; returns the entries added, in order -/
